@@ -56,14 +56,16 @@ SPEC = {
     "sizes": {"quick": 400, "thorough": 20000},
     "search_n": 4000,
     "runner_timeout": 2400,
-    "rule": ("e2e: a real Session (query_iter / execute_iter) against mocknode. 39 systematic cases (all page-size "
-             "sequences over {0,1,2} of length <= 3) + seeded random scripts: result sets of 0..N distinct rows "
-             "(N = 40 quick / 400 thorough) split into 1..9 (24 thorough) pages with empty pages anywhere, random "
-             "paging states (empty, 1 byte, 300 bytes, repeated), per-page faults (ERROR frames whose retry decision "
-             "same/next/dont/ignore is taken by a scripted retry policy or by DefaultRetryPolicy idempotent / "
-             "non-idempotent, delayed replies, connection reset, client-side timeout, plan exhaustion, Void / "
-             "non-RESULT replies), 1..4 nodes, consumer = full read (F), slow (S), early drop after n items (D), "
-             "timeout cases (T). non-trivial = at least two pages or one fault; distinct = distinct case lines"),
+    "rule": ("e2e: the real pagers against mocknode -- Session::query_iter (api q), Session::execute_iter (api e; E = cached "
+             "result metadata) and, through the hook scylla::client::verif_pager, Connection::execute_iter on a bare "
+             "connection (mode c, the control connection's pager). 39 systematic cases (all page-size sequences over "
+             "{0,1,2} of length <= 3) + seeded random scripts: result sets of 0..N distinct rows (N = 40 quick / 400 "
+             "thorough) split into 1..9 (24 thorough) pages with empty pages anywhere, random paging states (empty, 1 byte, "
+             "300 bytes, repeated), per-page faults (ERROR frames whose retry decision same/next/dont/ignore is taken by a "
+             "scripted retry policy or by DefaultRetryPolicy idempotent / non-idempotent, delayed replies, connection "
+             "reset, client-side timeout, plan exhaustion, Void / non-RESULT replies), 1..4 nodes; consumer = full read (F), "
+             "slow (S), every Pending poll cancelled (J), early drop after n items (D); timeout cases (T). "
+             "non-trivial = at least two pages or one fault; distinct = distinct case lines"),
     "nontrivial": _nontrivial,
     "extra_coverage": _extra,
     "trusted_base": [
@@ -73,6 +75,7 @@ SPEC = {
         "harness ScriptedPolicy (RetryPolicy whose decision is carried in the scripted error message) and the table of "
         "DefaultRetryPolicy decisions used by the generator (the policy itself is C06's subject)",
         "spec_stream / spec_error_stream / spec_state / spec_requests are the property text transcribed",
+        "hook scylla::client::verif_pager::execute_iter_on_new_connection (/repo commit bee67f4, pass-through)",
     ],
     "assumptions": [
         "one execution fiber per page (no speculative execution policy configured: C13 covers speculation)",
@@ -81,8 +84,8 @@ SPEC = {
         "(send needs a free permit or fails after the receiver is dropped; recv yields None only when closed and empty)",
         "early-drop cases: the request list may be snapshotted before the worker noticed the drop; the acceptor "
         "accepts every prefix between 'pages the consumer needed' and 'two pages more' (C07_read_ahead)",
-        "Connection::execute_iter (control connection pager, mode MConn of the model) is proved but not tied: it is "
-        "pub(crate) and the tie uses no hook",
+        "Connection::execute_iter is reached through the add-only hook scylla::client::verif_pager "
+        "(opens a bare connection, prepares, calls execute_iter); the control connection's own use of it is not driven",
     ],
 }
 
